@@ -105,6 +105,9 @@ def cases(ctx):
                     "A = Copy(InFieldName = B, InFieldName = B)", 'A = EEMSRead(InFileName = "x.csv", InFileName = "y.csv", InFieldName = X)', "A = C(P = 1, P = 2)\nB = C(Q = 1)", "A = C(P = 1)\nB = C(Q = 1, Q = [2])",
                     "READ(InFileName = x, InFileName = y, InFieldName = A)", "A = Sum(InFieldNames = [B], InFieldNames = [C], Metadata = [a: b], Metadata = [a: c])",
                     "READ(InFileName = x)", "READ()", "CVTTOFUZZY(InFieldName = [a])", "SUM(NewFieldName = [a, b], InFieldNames = [a])",
+                    # syntax errors on later lines of texts whose line ends are lone carriage returns (or mixed)
+                    "A = C(P = 1)\rB = C(Q = )", "A = C(P = 1)\r\rB = = C()", "A = C(P = 1)\rB = C(Q = \"x)\rD = C()", "A = C(P = 1)\r\nB = C(\rQ = ]\r)", "# c\rA = C(P = [1, 2)\r", "A = C()\rB = C()\rD = C(P = $)",
+                    "A = C(P = 1)\rB = C(Q = 'unterminated\r", "\r\r\rA = C(P = ))",
                     # numbers written with thousands of digits (whole, decimal, exponent, negative; as a value, in a list, as a tuple value)
                     "A = C(P = " + "9" * 5000 + ")", "A = C(P = -" + "1" * 4301 + ")", "A = C(P = [1, " + "7" * 6000 + "])", "A = C(P = [k: " + "3" * 4400 + "])", "A = C(P = 0." + "9" * 5000 + ")",
                     "A = C(P = " + "9" * 5000 + "e5)", "A = C(P = 1e" + "9" * 500 + ")", "A = Sum(InFieldNames = [B], Weights = [" + "9" * 5000 + "])", "A = C(P = " + "0" * 5000 + "1)"):
